@@ -26,7 +26,8 @@ Print Assumptions C17_promised_is_rewrapped.
 (* ops_preserve: for EVERY sequence of operations (any length; the <=6 bound applies to the correspondence run
    only), every element tagging, every second operand: (1) the object itself, after every operation -- also a
    refused one --, and every new object of the family keep the class tag and ALL election attributes of the start
-   object (the one exception is as_multiprofile, whose result is the multiprofile class of the same ballot type);
+   object (the two exceptions: as_multiprofile, whose result is the multiprofile class of the same ballot type, and
+   construction with an explicit ballot_validation flag, which changes exactly that flag -- see C17_ctorval);
    (2) an operation the API promises never comes back as a bare builtin, and its result has the class and the
    attributes of the object it was derived from. *)
 Theorem C17_ops_preserve : forall tags other ops cur,
@@ -34,6 +35,7 @@ Theorem C17_ops_preserve : forall tags other ops cur,
      (match r with
       | RRaise x | RSame x | RNone x => o_cls x = o_cls cur /\ o_attrs x = o_attrs cur
       | RNew x => (o_cls x = o_cls cur /\ o_attrs x = o_attrs cur) \/ (o = OAsMulti /\ o_cls x = o_cls cur + 4)
+                  \/ (exists b, o = OCtorVal b /\ o_cls x = o_cls cur)
       | RPlain => True
       end)
      /\ (family (o_cls cur) = true -> promised (o_cls cur) (opname o) = true ->
@@ -41,6 +43,19 @@ Theorem C17_ops_preserve : forall tags other ops cur,
   ops (run_ops tags cur other ops).
 Proof. exact (fun tags other ops cur => ops_preserve_gen tags other ops cur (o_cls cur) (o_attrs cur) eq_refl eq_refl). Qed.
 Print Assumptions C17_ops_preserve.
+
+(* construction from the object with an explicit validation flag: the result has the requested flag, every other
+   attribute of the source, and -- when the flag is on -- EVERY ballot has been validated, whatever the flag of the
+   source object was (a profile collected without validation cannot be turned into a validated one that still
+   holds a foreign ballot) *)
+Theorem C17_ctorval : forall tags cur other b x,
+  step tags cur other (OCtorVal b) = RNew x ->
+  o_cls x = o_cls cur /\ o_payload x = o_payload cur
+  /\ o_attrs x = firstn 1 (o_attrs cur) ++ (if b then 0 else 1) :: skipn 2 (o_attrs cur)
+  /\ (validation_on (o_attrs x) = true ->
+      forall ec, In ec (o_payload x) -> accepts (o_cls x) (btype (o_attrs x)) (tag tags (fst ec)) = true).
+Proof. exact ctorval_spec. Qed.
+Print Assumptions C17_ctorval.
 
 (* validated_profile_inv, LIST profiles: if validation is on and the profile holds only ballots admitted by its
    ballot_type, then after every operation of every sequence (append / insert / extend / += / item and slice
